@@ -1034,6 +1034,26 @@ func famDescLinked(c *Ctx) {
 			}()
 			descWalkFile(c, fd)
 		}()
+		// the same file rebuilt at run time: ToFileDescriptorProto -> protodesc.NewFile (the second construction path:
+		// desc_init/desc_resolve of reflect/protodesc instead of internal/filedesc's lazy initialisation); the views of
+		// the rebuilt descriptor must be consistent in exactly the same way
+		func() {
+			defer func() {
+				if r := recover(); r != nil {
+					c.PropFail("C36", "panic while rebuilding/walking a linked file through protodesc", fd.Path(), fmt.Sprint(r))
+				}
+			}()
+			if strings.HasPrefix(fd.Path(), "internal/testprotos/legacy/") {
+				return // 2016-era fixtures that never registered their imports
+			}
+			fd2, err := protodesc.NewFile(protodesc.ToFileDescriptorProto(fd), protoregistry.GlobalFiles)
+			if err != nil {
+				c.Stat("linked_rebuild_rejected")
+				return
+			}
+			c.Stat("linked_rebuilt")
+			descWalkFile(c, fd2)
+		}()
 	}
 }
 
@@ -1394,6 +1414,10 @@ func descGenMessage(c *Ctx, pkg string, scope string, name string, depth int, ed
 			f.OneofIndex = proto.Int32(int32(curOneof))
 		}
 		f.Label = lab.Enum()
+		if editions && f.OneofIndex == nil && lab == descriptorpb.FieldDescriptorProto_LABEL_OPTIONAL && c.Intn(4) == 0 {
+			// editions spelling of `required`: label optional + features.field_presence = LEGACY_REQUIRED
+			f.Options = &descriptorpb.FieldOptions{Features: &descriptorpb.FeatureSet{FieldPresence: descriptorpb.FeatureSet_LEGACY_REQUIRED.Enum()}}
+		}
 		if c.Intn(3) == 0 {
 			f.JsonName = proto.String(descNamePool[c.Intn(len(descNamePool))])
 		}
